@@ -45,8 +45,7 @@ for d in sorted(glob.glob(os.path.join(ROOT, 'seeded', 'C??-?'))):
         status = 'caught after strengthening'
     elif rc == 1:
         status = 'caught'
-    elif rc == 0:
-        status = 'NOT caught'
+X
     else:
         status = 'exit %s' % rc
     rows.append((name, files, status, sigs, note, m.get('confirmed'), first))
@@ -64,8 +63,9 @@ for name, files, status, sigs, note, conf, first in rows:
     out.append('| %s | %s | %s | %s | %s | %s |' % (name, fs, 'yes' if conf else 'NO', status, sg, esc(note)))
 n = len(rows)
 caught = sum(1 for r in rows if r[2].startswith('caught'))
+by_other = sum(1 for r in rows if r[2].startswith('caught by'))
 after = sum(1 for r in rows if r[2] == 'caught after strengthening')
-summary = '%d changes kept; %d caught by the quick tier of the property\'s own check (%d of them only after the check was strengthened, see the note column); %d not caught.' % (n, caught, after, n - caught)
+summary = '%d changes kept; %d caught by the quick tier (%d of them only after a check was strengthened, see the note column; %d by the check of a neighbouring property only); %d not caught.' % (n, caught, after, by_other, n - caught)
 table = summary + '\n\n' + '\n'.join(out) + '\n'
 
 dp = os.path.join(ROOT, 'DESIGN.md')
